@@ -85,7 +85,7 @@ class Simulator:
         "quick": dict(runs=1000, chunk=100, wall_cap=120, det_sample=100),
         "thorough": dict(runs=10000, chunk=100, wall_cap=900, det_sample=1000),
     }
-    run_watchdog_s = 120
+    run_watchdog_s = 600
     recursion_headroom = 900
     crash_rule = ""               # rule id charged when the code under test raises unexpectedly
     gc_every = 50                 # full garbage collection between runs, every so many runs
